@@ -1,4 +1,4 @@
 From Coq Require Import Extraction ExtrOcamlBasic.
 From Shisui Require Import Base.Bytes Model.Framing Model.Versions.
 Extraction Language OCaml.
-Extraction "c19_model.ml" find_biggest_same get_or_store get_twice negotiate node_encode_utp node_decode_utp empty_cache accept_kind_of gos_history.
+Extraction "c19_model.ml" find_biggest_same get_or_store get_twice negotiate node_encode_utp node_decode_utp empty_cache accept_kind_of gos_history rec_key.
